@@ -139,6 +139,12 @@ func (g *docGen) htmlInline(budget int) string {
 		case x < 17 && budget > 0:
 			t := inlineTags[g.r.Intn(len(inlineTags))]
 			b.WriteString("<" + t + ">" + g.htmlInline(budget-1) + "</" + t + ">")
+		case x == 17 && g.canLink() && g.r.Intn(2) == 0:
+			// an anchor with a target but nothing visible inside: it still owns a number
+			k := g.plant("a-empty")
+			g.links[len(g.links)-1].Label = ""
+			// separated by words: a bare number directly after another link's number would read as one number
+			fmt.Fprintf(&b, ` sep <a href="%s">%s</a> sep `, esc(k.Target), []string{"", " ", "<span></span>", "<b> </b>"}[g.r.Intn(4)])
 		case x == 17:
 			b.WriteString("<br>")
 		case x == 18:
@@ -347,6 +353,10 @@ func (g *docGen) mdInline() string {
 		case x < 12 && g.canLink():
 			k := g.plant("autolink")
 			parts = append(parts, "<"+k.Target+">")
+		case x < 13 && g.canLink() && g.r.Intn(3) == 0:
+			k := g.plant("a-empty")
+			g.links[len(g.links)-1].Label = ""
+			parts = append(parts, "sep []("+k.Target+") sep")
 		case x < 13:
 			parts = append(parts, "*"+g.word()+"*")
 		case x < 14:
